@@ -151,3 +151,185 @@ def spine_history(seed, nops=40, ntok=2, probe_every=True):
         if probe_every: h.probes()
     h.op("fini")
     return h.text()
+
+
+# ---------------------------------------------------------------------------------------------------------
+# attribute-engine histories: objects of every class built from the generated class table
+# ---------------------------------------------------------------------------------------------------------
+import json, os
+
+def load_tables():
+    from . import core
+    return json.load(open(os.path.join(core.BUILD, "tables.json")))
+
+CK = {n: 1 << (n - 1) for n in range(1, 25)}
+HISTORY_ATTRS = (0x163, 0x164, 0x165, 0x166)          # LOCAL NEVER_EXTRACTABLE ALWAYS_SENSITIVE KEY_GEN_MECHANISM
+SECRET_ATTRS = (0x11, 0x123, 0x124, 0x125, 0x126, 0x127, 0x128)
+
+
+def attr_value(rng, a, valid=True, cname=""):
+    """a template value (hex) for attribute descriptor `a`"""
+    ty, kind, size = a["type"], a["dkind"], a["size"]
+    if ty == 0x11 and cname in ("SECRET_DES2", "SECRET_DES3", "SECRET_AES") and valid:
+        n = {"SECRET_DES2": 16, "SECRET_DES3": 24, "SECRET_AES": rng.choice([16, 24, 32])}[cname]
+        return bytes(rng.randrange(256) for _ in range(n)).hex()
+    if kind == "bool":
+        v = rng.choice(["00", "01"])
+        return v if valid else rng.choice(["0001", ".", "0000000000000000"])
+    if kind == "ulong":
+        v = ul(rng.choice([0, 1, 2, 3, 16, 32, 0x1000]))
+        return v if valid else rng.choice(["01", ".", v + "00"])
+    if kind == "mechs":
+        return "".join(ul(m) for m in rng.sample([0x1, 0x1081, 0x1082, 0x1087, 0x251, 0x40, 0x1041], rng.randrange(1, 4))) if valid else rng.choice([".", "0102"])
+    if kind == "amap":
+        inner = ";".join(rng.sample(["162=01", "103=00", "104=01", "0=" + ul(4), "3=" + hx("inner"), "100=" + ul(0x1f)], rng.randrange(0, 4)))
+        return "{" + inner + "}"
+    if ty in (0x110, 0x111):                      # dates
+        return hx(rng.choice(["20260101", "19991231"])) if valid else hx("2026")
+    n = rng.choice([0, 1, 3, 8, 16, 16, 20, 32, 33, 100]) if valid else 5
+    return bytes(rng.randrange(256) for _ in range(n)).hex() or "."
+
+
+class ObjGen(History):
+    def __init__(self, rng, tables):
+        super().__init__(rng)
+        self.classes = [c for c in tables["classes"] if c["name"] != "SECRET_DES"]   # single DES needs OpenSSL's legacy provider (absent here)
+        self.objs2 = []        # (op index, class desc, token, on_token, private)
+
+    def base_template(self, c, on_token, private, label, give_private=True):
+        t = [f"0={ul(c['cls'])}"]
+        if c["cls"] in (2, 3, 4, 6): t.append(f"100={ul(c['keyType'])}")
+        if c["cls"] == 1: t.append(f"80={ul(c['certType'])}")
+        t.append(f"1={'01' if on_token else '00'}")
+        if give_private: t.append(f"2={'01' if private else '00'}")
+        t.append(f"3={hx(label)}")
+        return t
+
+    def create_obj(self, k, tok, c=None, on_token=None, private=None, defect=None):
+        rng = self.rng
+        c = c or rng.choice(self.classes)
+        on_token = rng.random() < 0.5 if on_token is None else on_token
+        private = rng.random() < 0.5 if private is None else private
+        lab = self.new_label()
+        t = self.base_template(c, on_token, private, lab)
+        skip = {0x0, 0x1, 0x2, 0x3, 0x100, 0x80}
+        for a in c["attrs"]:
+            if a["type"] in skip: continue
+            mandatory = a["checks"] & CK[1]
+            forbidden = a["checks"] & CK[2]
+            if a["type"] == 0x90 and rng.random() < 0.9: continue      # CKA_CHECK_VALUE: computed by the token
+            if mandatory or (not forbidden and rng.random() < 0.25):
+                t.append(f"{a['type']:x}={attr_value(rng, a, True, c['name'])}")
+        body = t[4:] if c["cls"] != 0 else t[3:]
+        if defect == "unknown":
+            t.insert(rng.randrange(3, len(t) + 1), f"{rng.choice([0x9999, 0x12345, 0x80000001]):x}={hx('zz')}")
+        elif defect == "wrongsize":
+            fixed = [a for a in c["attrs"] if a["size"] >= 0 and a["type"] not in skip and not a["checks"] & CK[2]]
+            if fixed:
+                a = rng.choice(fixed)
+                t = [x for x in t if not x.startswith(f"{a['type']:x}=")]
+                t.insert(rng.randrange(3, len(t) + 1), f"{a['type']:x}={attr_value(rng, a, valid=False)}")
+        elif defect == "forbidden":
+            fb = [a for a in c["attrs"] if a["checks"] & CK[2]]
+            if fb:
+                a = rng.choice(fb); t.insert(rng.randrange(3, len(t) + 1), f"{a['type']:x}={attr_value(rng, a)}")
+        elif defect == "missing":
+            mand = [a for a in c["attrs"] if a["checks"] & CK[1] and a["type"] not in (0x0,)]
+            if mand:
+                a = rng.choice(mand); t = [x for x in t if not x.startswith(f"{a['type']:x}=")]
+        elif defect == "inconsistent":
+            t.append(f"0={ul((c['cls'] + 1) % 5)}")
+        elif defect == "toomany":
+            t += [f"3={hx('l%d' % i)}" for i in range(33)]
+        elif defect == "foreign":                # an attribute of another class
+            other = rng.choice(self.classes)
+            own = {a["type"] for a in c["attrs"]}
+            cand = [a for a in other["attrs"] if a["type"] not in own]
+            if cand:
+                a = rng.choice(cand); t.insert(rng.randrange(3, len(t) + 1), f"{a['type']:x}={attr_value(rng, a)}")
+        rng.random() < 0.3 and rng.shuffle(body)
+        i = self.op(f"create @{k} " + " ".join(t))
+        self.minted += 1
+        if defect is None:
+            self.objs2.append((i, c, tok, on_token, private))
+            self.objects.append((i, tok, on_token, private, lab, k))
+        return i
+
+    def getattrs(self, k, oi, c):
+        rng = self.rng
+        types = [a["type"] for a in c["attrs"] if a["dkind"] != "amap"]
+        rng.shuffle(types)
+        if rng.random() < 0.2: types.insert(rng.randrange(len(types) + 1), rng.choice([0x9999, 0x120, 0x161, 0x11]))
+        for j in range(0, len(types), 6):
+            req = []
+            for ty in types[j:j + 6]:
+                cap = rng.choice(["n", "0", "1", "7", "8", "16", "64", "300", "300", "300"])
+                req.append(f"{ty:x}:{cap}")
+            self.op(f"getattr @{k} @{oi} " + " ".join(req))
+
+    def setattrs(self, k, oi, c):
+        rng = self.rng
+        n = rng.choice([1, 1, 2, 3])
+        cand = [a for a in c["attrs"] if a["type"] not in (0x0,)]
+        t = []
+        for a in rng.sample(cand, min(n, len(cand))):
+            valid = rng.random() < 0.85
+            t.append(f"{a['type']:x}={attr_value(rng, a, valid, c['name'])}")
+        if rng.random() < 0.1: t.append(f"9999={hx('q')}")
+        self.op(f"setattr @{k} @{oi} " + " ".join(t))
+
+    def copy(self, k, oi, c, tok):
+        rng = self.rng
+        t = []
+        lab = self.new_label()
+        if rng.random() < 0.9: t.append(f"3={hx(lab)}")
+        if rng.random() < 0.5: t.append(f"1={rng.choice(['00', '01'])}")
+        if rng.random() < 0.5: t.append(f"2={rng.choice(['00', '01'])}")
+        for a in rng.sample(c["attrs"], rng.choice([0, 0, 1, 2])):
+            if a["type"] in (0, 1, 2, 3): continue
+            t.append(f"{a['type']:x}={attr_value(rng, a, rng.random() < 0.9, c['name'])}")
+        i = self.op(f"copy @{k} @{oi} " + " ".join(t))
+        self.minted += 1
+        self.objs2.append((i, c, tok, True, True))      # belief only
+        return i
+
+
+def same(h, t):
+    """objects created through sessions of token t (the property speaks about a token's own sessions and handles)"""
+    return [o for o in h.objs2 if o[2] is t]
+
+
+def object_history(seed, tables, nops=40, ntok=2):
+    rng = random.Random(seed)
+    h = ObjGen(rng, tables)
+    h.prologue(ntok)
+    for t in h.toks:                                   # a user session and a public session per token
+        k = h.open(t, True); h.login(k, t, 'user'); h.open(t, rng.random() < 0.5)
+    for _ in range(nops):
+        r = rng.random()
+        k, t, rw = rng.choice(h.sessions)
+        if r < 0.30 or not same(h, t):
+            d = None if rng.random() < 0.7 else rng.choice(["unknown", "wrongsize", "forbidden", "missing", "inconsistent", "toomany", "foreign"])
+            h.create_obj(k, t, defect=d)
+        elif r < 0.55:
+            oi, c, tok, _, _ = rng.choice(same(h, t)); h.getattrs(k, oi, c)
+        elif r < 0.72:
+            oi, c, tok, _, _ = rng.choice(same(h, t)); h.setattrs(k, oi, c)
+        elif r < 0.82:
+            oi, c, tok, _, _ = rng.choice(same(h, t)); h.copy(k, oi, c, tok)
+        elif r < 0.86:
+            oi, c, tok, _, _ = rng.choice(same(h, t)); h.op(f"destroy @{k} @{oi}")
+        elif r < 0.92:
+            oi, c, tok, _, _ = rng.choice(same(h, t))
+            a = rng.choice(c["attrs"])
+            tpl = rng.choice(["", f" {a['type']:x}={attr_value(rng, a)}", f" 0={ul(c['cls'])}", f" 0={ul(c['cls'])} 1=01"])
+            h.op(f"findinit @{k}{tpl}"); h.minted += len(h.objs2)
+            h.op(f"find @{k} {rng.choice([1, 3, 100])}"); h.op(f"find @{k} 100"); h.op(f"findfinal @{k}")
+        elif r < 0.95:
+            h.login(k, t, rng.choice(['user', 'so']), rng.random() < 0.9)
+        elif r < 0.98:
+            h.logout(k, t)
+        else:
+            h.open(t, rng.random() < 0.5)
+    h.op("fini")
+    return h.text()
